@@ -118,7 +118,8 @@ class C14:
         else:
             ctx.bad("R14.2", self.file, "segment_clip", f"start_time={show(got_s)[:70]}",
                     f"segment starts are `{show(got_s)[:90]}`, not clip.start_time + i*hop: the segments leave the hop lattice", y.lineno)
-        if canon(got_e) == canon(end_t):
+        from sa.idioms import same_minmax
+        if canon(got_e) == canon(end_t) or same_minmax(got_e, end_t):
             ctx.ok("R14.2", f"{self.file}:{y.lineno} segment_clip", "end_time = min(start + duration, clip.end_time)")
         elif canon(got_e) == canon(end_raw):
             ctx.bad("R14.2", self.file, "segment_clip", f"end_time={show(got_e)[:70]} (unclamped)",
